@@ -334,3 +334,86 @@ func Run(h func()) (panicked interface{}) {
 	h()
 	return nil
 }
+
+// ---- logical threads (native twin of the engine scheduler): strict hand-off between two goroutines ----
+
+type nthread struct {
+	resume chan struct{}
+	done   bool
+}
+
+var (
+	nthreads [2]*nthread
+	ncur     int
+	nactive  bool
+	npre     int
+	nbound   = 2
+	nabort   interface{}
+)
+
+func nswitch(to int) {
+	from := ncur
+	ncur = to
+	nthreads[to].resume <- struct{}{}
+	<-nthreads[from].resume
+	ncur = from
+}
+
+// Yield: a possible context switch (the recorded schedule decides).
+func Yield() {
+	if !nactive {
+		return
+	}
+	other := 1 - ncur
+	if nthreads[other].done || npre >= nbound {
+		return
+	}
+	if Choose("sched", 2) == 1 {
+		npre++
+		nswitch(other)
+		if nabort != nil {
+			a := nabort
+			nabort = nil
+			panic(a)
+		}
+	}
+}
+
+func Par(f, g func()) {
+	load()
+	if b, ok := in.Params["preemptions"]; ok {
+		nbound, _ = strconv.Atoi(b)
+	}
+	nthreads[0] = &nthread{resume: make(chan struct{})}
+	nthreads[1] = &nthread{resume: make(chan struct{})}
+	ncur, nactive, npre = 0, true, 0
+	t1 := nthreads[1]
+	go func() {
+		<-t1.resume
+		defer func() {
+			if r := recover(); r != nil {
+				nabort = r
+			}
+			t1.done = true
+			ncur = 0
+			nthreads[0].resume <- struct{}{}
+		}()
+		g()
+	}()
+	if Choose("sched", 2) == 1 {
+		nswitch(1)
+	}
+	f()
+	nthreads[0].done = true
+	if !t1.done {
+		ncur = 1
+		t1.resume <- struct{}{}
+		<-nthreads[0].resume
+	}
+	nactive = false
+	if nabort != nil {
+		a := nabort
+		nabort = nil
+		panic(a)
+	}
+}
